@@ -150,3 +150,20 @@ func (r Rec) String() string {
 	}
 	return "C"
 }
+
+// Barrier is a spin barrier: goroutines released by a channel close leave within
+// microseconds of each other, goroutines leaving a spin barrier within
+// nanoseconds - the width of the windows the concurrency checks aim at.
+type Barrier struct {
+	n, ready int32
+}
+
+func NewBarrier(n int) *Barrier { return &Barrier{n: int32(n)} }
+
+// Wait returns once n goroutines have arrived (or after a bounded spin, so that a
+// goroutine that never arrives cannot wedge the others).
+func (b *Barrier) Wait() {
+	atomic.AddInt32(&b.ready, 1)
+	for spins := 0; atomic.LoadInt32(&b.ready) < b.n && spins < 2000000; spins++ {
+	}
+}
